@@ -149,6 +149,10 @@ def decompress(schc_packet: Buffer, rule_descriptor: RuleDescriptor, unparser: P
         
         schc_packet = schc_packet[residue_bitlength:]
     decompressed_fields.append((ParserDefinitions.PAYLOAD, schc_packet))
+    # feed to unparser if provided: lengths and checksums are computed over the fields as they go on the wire
+    if unparser is not None:
+        decompressed_fields = unparser.unparse(decompressed_fields)
+
     # sort compute CDA entries according 
     compute_entries.sort(key=cmp_to_key(compute_function_sort))
 
@@ -159,10 +163,6 @@ def decompress(schc_packet: Buffer, rule_descriptor: RuleDescriptor, unparser: P
         compute_function: ComputeFunctionType = compute_entry.function        
         decompressed_fields[field_position] = (field_id, compute_function(decompressed_fields, field_position))
         
-    # feed to unparser if provided
-    if unparser is not None:
-        decompressed_fields = unparser.unparse(decompressed_fields)
-
     # concatenate decompressed fields
     decompressed_field_values = [field_value for field_id, field_value in decompressed_fields]
     
